@@ -21,8 +21,8 @@ func genOverlapCfg(r *gen.Rand) tcfg {
 	cfg := tcfg{
 		Sliding: r.Bool(),
 		VStore:  r.Chance(2, 5),
-		Max:     r.Range(1, 3),
-		Dyn:     r.Chance(1, 3),
+		Max:     r.Range(1, 4),
+		Dyn:     r.Chance(1, 4),
 		E:       r.Range(1, 3),
 		NKeys:   r.PickW(4, 3, 2) + 1,
 	}
@@ -38,30 +38,18 @@ func genOverlapCfg(r *gen.Rand) tcfg {
 }
 
 func genOverlapSteps(r *gen.Rand, cfg tcfg) []tstep {
-	n := r.Range(6, 12) * cfg.NKeys
-	if n > 30 {
-		n = 30
-	}
 	E := cfg.E
 	okBias := r.Range(2, 8)
 	slowOneIn := r.Range(3, 6)
-	steps := make([]tstep, 0, n)
-	for i := 0; i < n; i++ {
-		st := tstep{Key: r.Intn(cfg.NKeys), Mode: "200"}
-		switch r.PickW(55, 15, 8, 6, 6, 5, 5) {
-		case 1:
-			st.Adv = 1000
-		case 2:
-			st.Adv = E * 1000
-		case 3:
-			st.Adv = (E - 1) * 1000
-		case 4:
-			st.Adv = (E + 1) * 1000
-		case 5:
-			st.Adv = 2 * E * 1000
-		case 6:
-			st.Adv = r.Range(1, 3*E) * 1000
-		}
+	var qualifying []string
+	switch {
+	case cfg.SkipFailed && !cfg.SkipOK:
+		qualifying = []string{"500", "404", "503", "err", "err503"}
+	case cfg.SkipOK && !cfg.SkipFailed:
+		qualifying = []string{"200", "200", "301"}
+	}
+	mk := func(key, adv int) tstep {
+		st := tstep{Key: key, Mode: "200", Adv: adv}
 		if cfg.Dyn && r.Chance(2, 3) {
 			st.Max = r.Range(1, 4)
 		}
@@ -69,10 +57,67 @@ func genOverlapSteps(r *gen.Rand, cfg tcfg) []tstep {
 			st.Mode = gen.Pick(r, modes)
 		}
 		if r.Chance(1, slowOneIn) {
-			d := gen.Pick(r, []int{1, E, E, E + 1, 2 * E, 2*E + 1, 3 * E})
-			st.Async, st.AsyncMs = true, d*1000+100
+			// handler durations of 1, 1.5, 2, 2.5, 3 windows and a second more
+			ms := gen.Pick(r, []int{1000, E * 1000, E * 1500, (E + 1) * 1000, 2 * E * 1000, (2*E + 1) * 1000, E * 2500, 3 * E * 1000, (3*E + 1) * 1000})
+			// the handler returns 100 ms after the instant at which requests are sent in that second,
+			// or 400 ms before it (then the requests of that very second already see the take-back);
+			// never at the instant itself
+			st.Async, st.AsyncMs = true, ms+100
+			if ms >= 2000 && r.Bool() {
+				st.AsyncMs = ms - 400
+			}
+			if len(qualifying) > 0 && r.Chance(2, 3) {
+				st.Mode = gen.Pick(r, qualifying)
+			}
 		}
-		steps = append(steps, st)
+		return st
+	}
+	var steps []tstep
+	if r.Bool() {
+		// free-running: arbitrary advances between requests
+		n := r.Range(6, 12) * cfg.NKeys
+		if n > 30 {
+			n = 30
+		}
+		for i := 0; i < n; i++ {
+			adv := 0
+			switch r.PickW(55, 15, 8, 6, 6, 5, 5) {
+			case 1:
+				adv = 1000
+			case 2:
+				adv = E * 1000
+			case 3:
+				adv = (E - 1) * 1000
+			case 4:
+				adv = (E + 1) * 1000
+			case 5:
+				adv = 2 * E * 1000
+			case 6:
+				adv = r.Range(1, 3*E) * 1000
+			}
+			steps = append(steps, mk(r.Intn(cfg.NKeys), adv))
+		}
+		return steps
+	}
+	// paced: traffic in every one of 4-7 successive windows (a few seconds of each window get a
+	// small burst), mostly on key 0, so that a slow handler spanning several windows finds
+	// same-key hits counted in each of them
+	last := 0
+	for w, nw := 0, r.Range(4, 7); w < nw && len(steps) < 34; w++ {
+		for sec := 0; sec < E; sec++ {
+			if sec > 0 && !r.Chance(1, 2) {
+				continue
+			}
+			at := (w*E + sec) * 1000
+			for b, nb := 0, r.PickW(3, 2, 1)+1; b < nb; b++ {
+				key := 0
+				if cfg.NKeys > 1 && r.Chance(1, 4) {
+					key = r.Intn(cfg.NKeys)
+				}
+				steps = append(steps, mk(key, at-last))
+				last = at
+			}
+		}
 	}
 	return steps
 }
@@ -85,6 +130,8 @@ func accountOverlap(e *ev.Env, hr *histRun) {
 	e.Stat("overlap-rejected", int64(j.Rejected))
 	e.Stat("overlap-refunds", int64(j.Refunds))
 	e.Stat("overlap-header-diffs-not-judged", int64(j.HeaderDiffs))
+	e.Stat("overlap-late-take-backs", int64(j.LateRefunds))
+	e.Stat("overlap-late-take-backs-while-other-hits-are-counted|"+hr.cfg.algo(), int64(j.LateRefundsOnLiveState))
 	e.Stat("overlap-admissions-in-undocumented-zone", int64(j.Debatable))
 	e.Stat("overlap-histories|"+hr.cfg.algo()+"|"+hr.cfg.backend(), 1)
 	// what the family is for: a take-back that arrives after other requests were counted
